@@ -17,7 +17,7 @@
 From Coq Require Import NArith List String Bool.
 From V Require Import Base.UString Base.Json Model.CallTable Model.Dispatch Model.DispatchPinned
   Model.VersionDetect Model.IdCheck Gen.CallSites
-  Proofs.DispatchFacts Proofs.C14Dispatch Proofs.C14Detect Proofs.C14Registry.
+  Proofs.DispatchFacts Proofs.C14Dispatch Proofs.C14Detect Proofs.C14Registry Proofs.C14Uuid.
 Import ListNotations.
 Open Scope string_scope.
 
@@ -157,6 +157,14 @@ Theorem strict_subset_relaxed_on_shape : forall im s v,
   interop_match im s = true -> check_uuid im s v false = UOk true -> check_uuid im s v true = UOk true.
 Proof. exact strict_subset_relaxed_pf. Qed.
 Print Assumptions strict_subset_relaxed_on_shape.
+
+(* the acceptance direction: the canonical text of EVERY 128-bit value is read back as that value
+   (through the model of uuid.UUID / int(.., 16)), so strict mode decides on the variant / version bits alone *)
+Theorem strict_accepts_canonical : forall im n v, (n < 2 ^ 128)%N ->
+  check_uuid im (canon_text n) v false
+  = UOk (if variant_rfc4122 n && ustr_eqb v v20s then (uuid_version n =? 4)%N else variant_rfc4122 n).
+Proof. exact strict_accepts_canonical_pf. Qed.
+Print Assumptions strict_accepts_canonical.
 
 Theorem strictness_witnesses :
   both_modes (fun im =>
